@@ -43,6 +43,18 @@ pub fn text_case(name: &str, files: &[(&str, &str)]) -> CliCase {
 
 static COUNTER: AtomicU64 = AtomicU64::new(0);
 
+/// A file name; `raw:<hex>` stands for the bytes given in hex (names that are not UTF-8).
+pub fn os_name(name: &str) -> std::ffi::OsString {
+    use std::os::unix::ffi::OsStringExt;
+    match name.strip_prefix("raw:") {
+        Some(hex) => {
+            let bytes: Vec<u8> = (0..hex.len() / 2).filter_map(|i| u8::from_str_radix(&hex[2 * i..2 * i + 2], 16).ok()).collect();
+            std::ffi::OsString::from_vec(bytes)
+        }
+        None => name.into(),
+    }
+}
+
 /// Write the case's files into a fresh directory; returns the directory.
 pub fn materialize(c: &CliCase) -> PathBuf {
     let n = COUNTER.fetch_add(1, Ordering::Relaxed);
@@ -51,7 +63,7 @@ pub fn materialize(c: &CliCase) -> PathBuf {
     for e in &c.entries {
         match e {
             Entry::File(name, bytes) => {
-                let p = d.join(name);
+                let p = d.join(os_name(name));
                 if let Some(parent) = p.parent() {
                     let _ = std::fs::create_dir_all(parent);
                 }
@@ -88,7 +100,7 @@ pub fn run_rva(
     }
     let mut cmd = Command::new(bin);
     cmd.arg("lint")
-        .arg(dir.join(base))
+        .arg(dir.join(os_name(base)))
         .args(flags)
         .current_dir(dir)
         .stdin(Stdio::null())
@@ -267,6 +279,12 @@ pub fn hostile_cases() -> Vec<CliCase> {
         name: "not-utf8".into(),
         entries: vec![Entry::File("a.s".into(), vec![0x6d, 0x3a, 0x0a, 0xff, 0xfe, 0x20, 0x61, 0x0a])],
         base: "a.s".into(),
+    });
+    // a base file whose name is not UTF-8 (the text is fine)
+    v.push(CliCase {
+        name: "file-name-not-utf8".into(),
+        entries: vec![Entry::File("raw:61ff2e73".into(), b"main:\n    add zero, a0, a1\n    li a7, 10\n    ecall\n".to_vec())],
+        base: "raw:61ff2e73".into(),
     });
     // all strings of length <= 3 over an alphabet of wide / whitespace / quote
     // characters, each after a statement that draws a diagnostic on that line
